@@ -274,7 +274,10 @@ CHECKS["C09"] = dict(
     jobs=[dict(name="bubble", pkg="./tun", go=GO126, test="TestC09B", shards=(4, 16), checks=(2500, 30000), timeout=(600, 3000)),
           # the real constructors (knx.NewTunnel / NewGroupTunnel) against a rule-following loopback gateway:
           # connect, numbered Sends, inbound requests + acknowledgements, heartbeat, Close
-          dict(name="conformance", pkg="./sock", go=GO, test="TestConformanceTunnel", shards=(2, 8), checks=(12, 150), timeout=(600, 3000))],
+          dict(name="conformance", pkg="./sock", go=GO, test="TestConformanceTunnel", shards=(2, 8), checks=(12, 150), timeout=(600, 3000)),
+          # real clock: 2..4 goroutines in Send, the first one unacknowledged, while the gateway forces a reconnect:
+          # a request first transmitted well after the reconnect must carry the new channel
+          dict(name="real", pkg="./tun", go=GO, test="TestC09R", shards=(8, 16), checks=(6, 60), timeout=(600, 3000))],
 )
 
 CHECKS["C10"] = dict(
